@@ -13,4 +13,4 @@ META["explanation"] = ("Same transition system as C01 (regenerated from the byte
 
 def run(tier, seed):
     return runner.run_property("C02", tier, seed, "harness.pools_common", c01.configs(tier), ("deadlock",), c01.ks(tier),
-                               900 if tier == "quick" else 2400, META, wall_limit=1700 if tier == "quick" else 12000)
+                               900 if tier == "quick" else 1200, META, wall_limit=1700 if tier == "quick" else 5400)
